@@ -158,8 +158,13 @@ def load(debug_assertions=False, tests=False):
             raw = {c: json.load(open(os.path.join(pre, c + '.json'))) for c in CRATES}
         else:
             raw = dump(debug_assertions, tests)
+        from . import canonnames
+        fn_renames = canonnames.rename_functions(raw, CRATES) if not tests else []      # a renamed private function gets its reviewed path back
         F = Facts(raw)
+        F.fn_renamed = fn_renames
         F.debug_assertions = bool(debug_assertions)
+        canonnames.apply(F)      # renamed variables get the names of the reviewed tree back (tables/known_locals.json)
+        canonnames.rename_fields(F)
         from . import inline
         inline.apply(F)          # new private helpers (not in tables/known_functions.json) are spliced into their callers
         _cache[key] = F
